@@ -131,6 +131,7 @@ type Record struct {
 	DirRelative   string            `json:"dirRelative"` // ok | refused:<msg> | differs
 	DirNested     string            `json:"dirNested"`
 	DirAbsolute   string            `json:"dirAbsolute"`
+	DirPopulated  string            `json:"dirPopulated"` // an output directory that holds an older, longer version of every file
 	RefCompared   bool              `json:"refCompared"`
 	RefSame       bool              `json:"refSame"`
 	RefDiff       []string          `json:"refDiff"`
@@ -214,6 +215,20 @@ func main() {
 		rec.DirAbsolute = "ok"
 	} else {
 		rec.DirAbsolute = "differs"
+	}
+	// an output directory that already holds a package (every file in an older, longer version): same package again
+	pop := filepath.Join(*work, "populated", "fixpkg")
+	must(os.MkdirAll(pop, 0o755))
+	for name, b := range files1 {
+		old := append(append([]byte{}, b...), []byte("\n// an older version of this file was longer\nfunc staleTail() { }}}\n")...)
+		must(os.WriteFile(filepath.Join(pop, name), old, 0o644))
+	}
+	if o, err := run(filepath.Join(*work, "populated"), "fixpkg"); err != nil {
+		rec.DirPopulated = "refused:" + lastLine(o)
+	} else if sameFiles(files1, readDir(pop)) {
+		rec.DirPopulated = "ok"
+	} else {
+		rec.DirPopulated = "differs"
 	}
 	// declarations of the generated package
 	extract(filepath.Join(mod, "fixpkg"), rec)
